@@ -305,6 +305,22 @@ fn history<D: Driver>(r: &mut Rng, hno: u64) {
         hno, D::CODEC, D::APP, steps_done, probes, reqs.len(), mismatch.is_empty(), mismatch.iter().map(|s| json_str(s)).collect::<Vec<_>>().join(","));
 }
 
+/// replay of a stored probe: the `pre` events on a fresh bridge, then the input as an event or as the
+/// response to the first request that expects one
+fn corpus_probe<D: Driver>(k: usize, pre: &[Vec<u8>], first: bool, input: &[u8]) {
+    let m = D::new();
+    let mut issued: Vec<Issued> = vec![];
+    for e in pre { if let Ok(Ok(out)) = catch_unwind(AssertUnwindSafe(|| m.event(e))) { issued.extend(D::issued(&out)); } }
+    let target = if first { issued.iter().find(|q| q.kind != Kind::Never) } else { None };
+    if first && target.is_none() { println!("{{\"t\":\"corpus-skip\",\"k\":{}}}", k); return; }
+    let before = m.view();
+    let (res, max_single, peak) = measured(|| guarded(|| catch_unwind(AssertUnwindSafe(|| match target { None => m.event(input), Some(q) => m.response(q.id, input) }))));
+    let (tname, fmt, tag) = match target { None => ("event", D::EVENT_FMT, String::new()), Some(q) => (match q.kind { Kind::Once => "once", Kind::Many => "many", Kind::Never => "never" }, q.fmt, q.tag.clone()) };
+    let (rs, err, view_same) = match &res { Err(_) => ("panic", String::new(), false), Ok(Ok(_)) => ("ok", String::new(), m.view() == before), Ok(Err(e)) => ("err", e.clone(), m.view() == before) };
+    println!("{{\"t\":\"probe\",\"h\":-{},\"codec\":\"{}\",\"app\":\"{}\",\"target\":\"{}\",\"fmt\":\"{}\",\"tag\":{},\"mut\":\"corpus\",\"in\":\"{}\",\"res\":\"{}\",\"err\":{},\"view_same\":{},\"max_single\":{},\"peak\":{},\"len\":{}}}",
+        k + 1, D::CODEC, D::APP, tname, fmt, json_str(&tag), hex(input), rs, json_str(&err), view_same, max_single, peak, input.len());
+}
+
 fn main() {
     let a: Vec<String> = std::env::args().collect();
     let seed: u64 = a.get(1).and_then(|s| s.parse().ok()).unwrap_or(1);
@@ -315,6 +331,23 @@ fn main() {
         let s = CALL_START_MS.load(SeqCst);
         if s != 0 && now_ms().saturating_sub(s) > 20_000 { println!("{{\"t\":\"hang\",\"after_ms\":{}}}", now_ms() - s); std::process::exit(4); }
     });
+    if a.get(1).map(|s| s == "corpus").unwrap_or(false) {
+        // corpus mode: lines {"driver":"malbin|maljson|kvbin","pre":[hex..],"target":"event|first","in":hex}
+        let text = std::fs::read_to_string(&a[2]).unwrap_or_default();
+        for (k, line) in text.lines().filter(|l| l.starts_with('{')).enumerate() {
+            let j: serde_json::Value = match serde_json::from_str(line) { Ok(j) => j, Err(_) => continue };
+            let unhex = |s: &str| -> Vec<u8> { (0..s.len() / 2).filter_map(|i| u8::from_str_radix(&s[2 * i..2 * i + 2], 16).ok()).collect() };
+            let pre: Vec<Vec<u8>> = j["pre"].as_array().map(|v| v.iter().map(|x| unhex(x.as_str().unwrap_or(""))).collect()).unwrap_or_default();
+            let input = unhex(j["in"].as_str().unwrap_or(""));
+            let first = j["target"].as_str() == Some("first");
+            match j["driver"].as_str().unwrap_or("") {
+                "malbin" => corpus_probe::<MalBin>(k, &pre, first, &input),
+                "maljson" => corpus_probe::<MalJson>(k, &pre, first, &input),
+                _ => corpus_probe::<KvBin>(k, &pre, first, &input),
+            }
+        }
+        return;
+    }
     let mut r = Rng::new(seed ^ 0xC12);
     for h in 0..n {
         match h % 5 { 0 | 1 => history::<MalBin>(&mut r, h), 2 | 3 => history::<MalJson>(&mut r, h), _ => history::<KvBin>(&mut r, h) }
